@@ -114,8 +114,9 @@ def mismatch(inferred, annot) -> Optional[str]:
 
 
 class TypeInfer:
-    def __init__(self, repo: Repo, mod: ModuleInfo, params: Dict[str, tuple], raw_names=()):
+    def __init__(self, repo: Repo, mod: ModuleInfo, params: Dict[str, tuple], raw_names=(), owner: Optional[ClassInfo] = None):
         self.repo, self.mod = repo, mod
+        self.owner = owner            # class whose method is being typed (resolves self.m(...) / cls.m(...))
         self.scopes: List[Dict[str, tuple]] = [dict(params)]
         self.checks: List[tuple] = []     # (callee, slot, inferred, annotation, node)
         for n in raw_names:
@@ -344,7 +345,7 @@ class JsonTyper:
         if isinstance(e, ast.IfExp):
             a, b = self.of(e.body), self.of(e.orelse)
             out = jt(a['types'] | b['types'])
-            for k in ('items', 'properties', 'additional', 'unknown', 'language'):
+            for k in ('items', 'properties', 'additional', 'unknown', 'language', 'undecided'):
                 if k in a or k in b:
                     out[k] = a.get(k, b.get(k))
             return out
@@ -387,8 +388,61 @@ class JsonTyper:
                     return jt({'string'}, language=lang)
                 except Exception:  # noqa - language unknown, plain string
                     return jt({'string'})
+        inl = self._inline(e)
+        if inl is not None:
+            return inl
         t = self.ti.infer(e)
         return self.from_type(t, e)
+
+    def _inline(self, e):
+        """A call of a helper whose body is one `return <expr>` (a method of the class being typed, or a function of the module):
+        the JSON type of the returned expression with the parameters bound to the types of the arguments."""
+        if not isinstance(e, ast.Call) or getattr(self, '_depth', 0) > 4:
+            return None
+        f = e.func
+        fn = owner = None
+        skip = False
+        mod = self.ti.mod
+        if isinstance(f, ast.Attribute) and isinstance(f.value, ast.Name) and f.value.id in ('self', 'cls') and self.ti.owner is not None:
+            for c in self.ti.repo.mro(self.ti.owner):
+                if f.attr in c.methods:
+                    fn, owner, mod = c.methods[f.attr], c, c.module
+                    skip = c.method_kind(f.attr) in ('method', 'class')
+                    break
+        elif isinstance(f, ast.Name):
+            r = self.ti.repo.resolve_name(self.ti.mod, f.id)
+            if r and r[0] == 'func':
+                fn, mod = r[2], r[1]
+        if fn is None:
+            return None
+        body = [b for b in fn.body if not (isinstance(b, ast.Expr) and isinstance(b.value, ast.Constant))]
+        if len(body) != 1 or not isinstance(body[0], ast.Return) or body[0].value is None:
+            return None
+        if fn.args.vararg or fn.args.kwarg or fn.args.kwonlyargs:
+            return None
+        params = [a.arg for a in (fn.args.args[1:] if skip else fn.args.args)]
+        scope = {}
+        for i, a in enumerate(e.args):
+            if i >= len(params) or isinstance(a, ast.Starred):
+                return None
+            scope[params[i]] = self.ti.infer(a)
+        for k in e.keywords:
+            if k.arg not in params:
+                return None
+            scope[k.arg] = self.ti.infer(k.value)
+        for prm, d in zip(reversed(params), reversed(fn.args.defaults)):
+            if prm not in scope:
+                scope[prm] = self.ti.infer(d)
+        if set(params) - set(scope):
+            return None
+        saved = (self.ti.scopes, self.ti.mod, self.ti.owner)
+        self.ti.scopes, self.ti.mod, self.ti.owner = [scope], mod, owner if owner is not None else None
+        self._depth = getattr(self, '_depth', 0) + 1
+        try:
+            return self.of(body[0].value)
+        finally:
+            self._depth -= 1
+            self.ti.scopes, self.ti.mod, self.ti.owner = saved
 
     def from_type(self, t, e):
         if t[0] == 'opt':
@@ -402,6 +456,8 @@ class JsonTyper:
             m = {'str': 'string', 'int': 'integer', 'bool': 'boolean', 'float': 'number'}
             if t[1] in m:
                 return jt({m[t[1]]})
+            if t == UNK:
+                return jt(set(), undecided=f'the type of `{ast.unparse(e)}` cannot be inferred')
             return jt(set(), unknown=f'`{ast.unparse(e)}` has type {show(t)}: not JSON-serialisable as such')
         if t[0] in ('list', 'tuple'):
             return jt({'array'}, items=self.from_type(t[1], e))
@@ -427,6 +483,8 @@ def against_schema(j, node, resolve, path='') -> List[str]:
     """Reasons why JSON type `j` is not within schema `node` (empty = conforms)."""
     node = resolve(node)
     out = []
+    if 'undecided' in j:
+        raise AnalysisError('typeflow', path or 'value', j['undecided'] + ': outside the expressions the JSON typer understands')
     if 'unknown' in j:
         out.append(f'{path or "value"}: {j["unknown"]}')
     extra = j['types'] - schema_types(node)
